@@ -361,6 +361,19 @@ fn gen_replica_setup(rng: &mut StdRng, ntasks: usize) -> Setup {
         tasks.push(calls);
     }
     tasks.push((0..rng.gen_range(1..=3)).map(|_| Call::Get(0)).collect());
+    if rng.gen_bool(0.6) {
+        // a proof damaged in transit among the honest ones: it must be refused (and the refusal must
+        // come back: the other tasks' calls queue behind it)
+        let i = rng.gen_range(0..n2);
+        let nodes = base.missing_nodes(i).unwrap_or(0);
+        if let Ok(Some(mut p)) = w.create_proof(Some(RequestBlock { index: i, nodes }), None, None, Some(RequestUpgrade { start: n1, length: n2 - n1 })) {
+            if let Some(u) = p.upgrade.as_mut() {
+                u.signature[7] ^= 0x40;
+                let at = rng.gen_range(0..tasks.len());
+                tasks[at].insert(0, Call::Apply(Box::new(p), json!({"o":"forged","src":"w","blk":i})));
+            }
+        }
+    }
     Setup { writer: false, pre_blocks: blocks, tasks, base: Some(base.disk.images()) }
 }
 
